@@ -96,14 +96,14 @@ func gsvdCase(t *vlib.T, r, p, c int, fa, fb string, v int, rep string) {
 			continue
 		}
 		if !fok {
-			t.Failf("%s: Factorize returned false A=%s B=%s", kd.name, fmtM(A), fmtM(B))
+			fail("%s: Factorize returned false A=%s B=%s", kd.name, fmtM(A), fmtM(B))
 			continue
 		}
 		if maxAbs(subM(fromMat(a), A)) != 0 || maxAbs(subM(fromMat(b), B)) != 0 {
-			t.Failf("%s: Factorize modified an argument", kd.name)
+			fail("%s: Factorize modified an argument", kd.name)
 		}
 		if gs.Kind() != kd.kind {
-			t.Failf("%s: Kind = %v", kd.name, gs.Kind())
+			fail("%s: Kind = %v", kd.name, gs.Kind())
 		}
 		k, l := gs.Rank()
 		if k+l != rankAB || l != rankB {
@@ -113,16 +113,16 @@ func gsvdCase(t *vlib.T, r, p, c int, fa, fb string, v int, rep string) {
 		va, vb, gv := gs.ValuesA(nil), gs.ValuesB(nil), gs.GeneralizedValues(nil)
 		d := min(r, c)
 		if len(va) != d-k || len(vb) != d-k || len(gv) != d-k {
-			t.Failf("%s: value lengths %d %d %d want %d", kd.name, len(va), len(vb), len(gv), d-k)
+			fail("%s: value lengths %d %d %d want %d", kd.name, len(va), len(vb), len(gv), d-k)
 			continue
 		}
 		for i := range va {
 			if i < min(l, r-k) {
 				if math.Abs(va[i]*va[i]+vb[i]*vb[i]-1) > tolResid*fmax*eps {
-					t.Failf("%s: alpha²+beta² = %v at %d", kd.name, va[i]*va[i]+vb[i]*vb[i], i)
+					fail("%s: alpha²+beta² = %v at %d", kd.name, va[i]*va[i]+vb[i]*vb[i], i)
 				}
 				if gv[i] != va[i]/vb[i] && !(math.IsNaN(gv[i]) && vb[i] == 0 && va[i] == 0) {
-					t.Failf("%s: GeneralizedValues[%d] = %v, want %v/%v", kd.name, i, gv[i], va[i], vb[i])
+					fail("%s: GeneralizedValues[%d] = %v, want %v/%v", kd.name, i, gv[i], va[i], vb[i])
 				}
 			}
 		}
@@ -130,11 +130,11 @@ func gsvdCase(t *vlib.T, r, p, c int, fa, fb string, v int, rep string) {
 			allVA, allVB, kAll, lAll = va, vb, k, l
 		} else if allVA != nil {
 			if k != kAll || l != lAll {
-				t.Failf("%s: Rank (%d,%d) differs from kind All (%d,%d)", kd.name, k, l, kAll, lAll)
+				fail("%s: Rank (%d,%d) differs from kind All (%d,%d)", kd.name, k, l, kAll, lAll)
 			} else {
 				for i := range va {
 					if math.Abs(va[i]-allVA[i]) > 1e-9 || math.Abs(vb[i]-allVB[i]) > 1e-9 {
-						t.Failf("%s: values differ from kind All: %v/%v vs %v/%v", kd.name, va, vb, allVA, allVB)
+						fail("%s: values differ from kind All: %v/%v vs %v/%v", kd.name, va, vb, allVA, allVB)
 						break
 					}
 				}
@@ -150,7 +150,7 @@ func gsvdCase(t *vlib.T, r, p, c int, fa, fb string, v int, rep string) {
 		gs.SigmaBTo(&S2)
 		zr, s1, s2 := fromMat(&ZR), fromMat(&S1), fromMat(&S2)
 		if zr.r != k+l || zr.c != c || s1.r != r || s1.c != k+l || s2.r != p || s2.c != k+l {
-			t.Failf("%s: shapes [0 R] %d×%d Σ1 %d×%d Σ2 %d×%d (k=%d l=%d)", kd.name, zr.r, zr.c, s1.r, s1.c, s2.r, s2.c, k, l)
+			fail("%s: shapes [0 R] %d×%d Σ1 %d×%d Σ2 %d×%d (k=%d l=%d)", kd.name, zr.r, zr.c, s1.r, s1.c, s2.r, s2.c, k, l)
 			continue
 		}
 		// sized (dirty) destinations give the same
@@ -169,7 +169,7 @@ func gsvdCase(t *vlib.T, r, p, c int, fa, fb string, v int, rep string) {
 			dst := mat.NewDense(pair.want.r, pair.want.c, dd)
 			pair.to(dst)
 			if maxAbs(subM(fromMat(dst), pair.want)) != 0 {
-				t.Failf("%s: %s into a sized destination differs", kd.name, pair.nm)
+				fail("%s: %s into a sized destination differs", kd.name, pair.nm)
 			}
 		}
 		// [0 R]: first c-k-l columns zero, R upper triangular and nonsingular
@@ -186,7 +186,7 @@ func gsvdCase(t *vlib.T, r, p, c int, fa, fb string, v int, rep string) {
 			gs.UTo(&U)
 			Um = fromMat(&U)
 			if q := orthoDefect(Um) / (fmax * eps); Um.r != r || Um.c != r || q > tolResid || math.IsNaN(q) {
-				t.Failf("%s: U %d×%d orthogonality ratio %.3g", kd.name, Um.r, Um.c, q)
+				fail("%s: U %d×%d orthogonality ratio %.3g", kd.name, Um.r, Um.c, q)
 			}
 		} else {
 			mustPanic(t, kd.name+": UTo without U", func() { gs.UTo(&mat.Dense{}) })
@@ -196,7 +196,7 @@ func gsvdCase(t *vlib.T, r, p, c int, fa, fb string, v int, rep string) {
 			gs.VTo(&V)
 			Vm = fromMat(&V)
 			if q := orthoDefect(Vm) / (fmax * eps); Vm.r != p || Vm.c != p || q > tolResid || math.IsNaN(q) {
-				t.Failf("%s: V %d×%d orthogonality ratio %.3g", kd.name, Vm.r, Vm.c, q)
+				fail("%s: V %d×%d orthogonality ratio %.3g", kd.name, Vm.r, Vm.c, q)
 			}
 		} else {
 			mustPanic(t, kd.name+": VTo without V", func() { gs.VTo(&mat.Dense{}) })
@@ -206,7 +206,7 @@ func gsvdCase(t *vlib.T, r, p, c int, fa, fb string, v int, rep string) {
 			gs.QTo(&Q)
 			Qm = fromMat(&Q)
 			if q := orthoDefect(Qm) / (fmax * eps); Qm.r != c || Qm.c != c || q > tolResid || math.IsNaN(q) {
-				t.Failf("%s: Q %d×%d orthogonality ratio %.3g", kd.name, Qm.r, Qm.c, q)
+				fail("%s: Q %d×%d orthogonality ratio %.3g", kd.name, Qm.r, Qm.c, q)
 			}
 		} else {
 			mustPanic(t, kd.name+": QTo without Q", func() { gs.QTo(&mat.Dense{}) })
